@@ -92,8 +92,10 @@ func (data *Data) CreateDataNode(addr, tcpAddr string) error {
 		}
 	}
 
-	// We didn't find an existing node, so assign it a new node ID
-	if existingID == 0 {
+	// We didn't find an existing node, or its ID is already taken by a data
+	// node (one that has since moved to another address), so assign a new
+	// node ID: data node IDs must be unique.
+	if existingID == 0 || data.DataNode(existingID) != nil {
 		data.MaxNodeID++
 		existingID = data.MaxNodeID
 	}
